@@ -116,8 +116,8 @@ def rule_A2(ctx):
                 }.get(kind, "a builder helper is called while an instruction still lacks its metadata record") + " (at %s; %d allowed)" % (", ".join(wheres), allowed))
             elif wheres:
                 r.info.append("allowed %s %s x%d: %s" % (f["path"], kind, len(wheres), al[f["path"]][kind]["reason"]))
-    r.floor("push_instruction call sites in compiler::build", ni, 20)
-    r.floor("InstructionMetadata push sites in compiler::build", nm, 20)
+    r.floor("push_instruction call sites in compiler::build", ni, 5)
+    r.floor("InstructionMetadata push sites in compiler::build", nm, 5)
     # controls
     cf = [f for f in F.fns_in("gfixture::a2::") if f["kind"] != "Closure"]
     cpeers = _emitters(cf)
@@ -362,10 +362,10 @@ def rule_D4(ctx):
                     r.finding(f["path"], "end-operand-missing:" + ins, loc(n), "end instruction %s needs an operand but None is given" % ins)
                 elif kinds - want:
                     r.finding(f["path"], "end-operand-origin:%s:%s" % (ins, "/".join(sorted(kinds - want))), loc(n), "operand of end instruction %s originates from %s; it must come from %s" % (ins, sorted(kinds - want), sorted(want) or "nothing (no operand)"))
-    r.floor("end-instruction tuples", n_tup, 4)
-    r.floor("push_instruction sites", n_push, 20)
-    r.floor("push_to_jump_table sites", n_jt, 6)
-    r.floor("add_expression sites", n_expr, 2)
+    r.floor("end-instruction tuples", n_tup, 2)
+    r.floor("push_instruction sites", n_push, 5)
+    r.floor("push_to_jump_table sites", n_jt, 1)
+    r.floor("add_expression sites", n_expr, 1)
     # patch consumer + entry index in build()
     bf = [f for f in fns if f.get("name") == "build" and f.get("vis") == "Public"]
     if not bf:
@@ -594,7 +594,7 @@ def rule_T12(ctx):
             elif kinds != {"inherited"}:
                 r.finding(f["path"], "containing-not-inherited:" + "/".join(sorted(kinds - {"inherited"})), loc(n),
                           "a child node is given containing_expression_jump from %s instead of inheriting its parent's: a reapply (^~) inside it would jump to the wrong entry point" % sorted(kinds - {"inherited"}))
-    r.floor("BuildNode constructions", n_sites, 25)
+    r.floor("BuildNode constructions", n_sites, 8)
     return r
 
 
